@@ -371,4 +371,21 @@ Section Orig.
     destruct (write_model_closed g _ _ _ _ _ _ H n (md, o) Hin m (Hall n (md, o) Hin m Hm)) as [Hd|Hr];
       [exact Hd|exfalso; exact (Href m Hr)].
   Qed.
+
+  (* only the records written under page writing or as one of the three special dictionaries
+     can hold a reference the writer did not follow *)
+  Theorem special_followed_closed : forall maxd fuel root info s,
+    write_model g maxd fuel delv root info = WOk s ->
+    (forall n o, In (n, (MGen false false, o)) s -> wfobj o = true) ->
+    (forall n md o, In (n, (md, o)) s -> md <> MGen false false -> incl (refs o) (followed (md, o))) ->
+    (forall m, ~ refused g m) ->
+    closed s.
+  Proof.
+    intros maxd fuel root info s H Hwf Hsp Href.
+    apply (followed_all_closed maxd fuel root info s H); [|exact Href].
+    intros n [md o] Hin. simpl snd.
+    destruct md as [[|] [|]| | |]; try (apply (Hsp n _ o Hin); discriminate).
+    change (followed (MGen false false, o)) with (wrefs_values false false o).
+    rewrite (wrefs_values_nopages_all o (Hwf n o Hin)). apply incl_refl.
+  Qed.
 End Orig.
